@@ -79,6 +79,12 @@ def _audit(event, args):
     if _in_re():
         return                                      # the regular-expression engine is trusted (e.g. lazy `import unicodedata`)
     AUD['bad'].append(event if event != 'compile' else 'compile-foreign-source')
+    # the operation is refused: a mutated / repaired evaluator must not be able to harm the checking process or the machine
+    raise SideEffectBlocked(f'C15 safety monitor: {event} {tuple(repr(a)[:60] for a in args)}')
+
+
+class SideEffectBlocked(BaseException):
+    """ raised by the audit hook: the implementation tried something else than evaluating the formula """
 
 
 sys.addaudithook(_audit)
@@ -402,14 +408,16 @@ def evaluate_batch(chk, cases):
             diff = dict(replay, note='model and implementation differ')
         for ev in sorted(set(bad)):
             findings.append((f'C15:side-effect:{ev}', f'audit event "{ev}" while loading / evaluating the formula {short(formula_of(case))}', replay))
-        if obs.startswith('raised:'):
+        if obs.startswith('raised:') and not (bad and obs.endswith(':SideEffectBlocked')):
             shape = m_obs.split(':')[3] if m_cmp == obs and m_obs.count(':') >= 3 else 'unmodelled'
             _, site, cls = obs.split(':')
             findings.append((f'C15:{site}:{cls}:{shape}',
                              f'{cls} escapes ({site}) for operational_status={short(formula_of(case))}',
                              dict(replay, traceback=tb)))
-        elif verdict != 'ok':
-            sig = f'C15:{verdict}' + (f':{tag}' if tag != '-' else '')
+        elif obs.startswith('ok:') and verdict != 'ok':
+            # the cause tag only explains the clause it belongs to
+            mine = (verdict, tag) in (('formula-major', 'call-extra-args-ignored'), ('not-a-formula', 'stmt-value-evaluated'))
+            sig = f'C15:{verdict}' + (f':{tag}' if mine else '')
             findings.append((sig, f'clause "{verdict}" violated: operational_status={short(formula_of(case))} reported {obs}', replay))
         info['model'] = m_obs; info['verdict'] = verdict
         yield case, info, head, obs, findings, diff
